@@ -17,6 +17,9 @@ import (
 // table compared before start-up and after the exit.
 type exitWorld struct {
 	stall int // 1/stall of scheduling steps freeze the chosen application task
+	// closeSuspended: the session ends with Close right after its last
+	// Suspend, without a Resume (exit kind 0 only)
+	closeSuspended bool
 	s    *simrt.Sched
 	res  *RunResult
 	env  *sessionEnv
@@ -84,6 +87,10 @@ func (w *exitWorld) violate(oracle, site, format string, args ...any) {
 		oracle += "+during-New"
 	} else if w.overlap != "" {
 		oracle += "+main-in-" + w.overlap
+	} else if w.mainBusy != "" && !w.startedAtEnter && w.selfExitStarted() {
+		// judged before leave(): the self-initiated shutdown began while
+		// the main task's current call was running (leave's own rule)
+		oracle += "+main-in-" + w.mainBusy
 	}
 	w.res.Violate(oracle, site, format, args...)
 }
@@ -123,7 +130,7 @@ func (w *exitWorld) Describe() any {
 	exit := []string{"Close() from the main task", fmt.Sprintf("SIGTERM before scheduler step %d", w.sigStep), fmt.Sprintf("panic at the %d-th handleSequence", w.panicAt)}[w.exitKind]
 	return map[string]any{"size": fmt.Sprintf("%dx%d", w.rows, w.cols), "caps": capsString(w.caps), "plan": plan, "exit": exit,
 		"initial": fmt.Sprintf("cursor-style=%d app-id=%q kitty-stack=%v flags=%d modes-set=%v", w.initStyle, w.initApp, w.initKitty, w.initFlags, w.initSet),
-		"options": fmt.Sprintf("%+v", w.opts), "user_input": w.userIn, "stall_1_in": w.stall}
+		"options": fmt.Sprintf("%+v", w.opts), "user_input": w.userIn, "stall_1_in": w.stall, "close_while_suspended": w.closeSuspended && w.exitKind == 0 && w.lastSuspend() >= 0}
 }
 
 func (w *exitWorld) Build(t *simrt.Tape, spec RunSpec) {
@@ -193,6 +200,7 @@ func (w *exitWorld) Build(t *simrt.Tape, spec RunSpec) {
 	// stall fault: the application's threads may be frozen between two
 	// library steps (inside Close, Suspend, Resume, Render) for up to 70 ms
 	w.stall = []int{0, 0, 400, 80}[t.Draw(4)]
+	w.closeSuspended = t.Draw(4) == 0
 	if v, ok := spec.Opts["sweepk"]; ok && v != "" {
 		// the exit point is swept along the session
 		k := optInt(spec.Opts, "sweepk", 0)
@@ -258,6 +266,16 @@ func (w *exitWorld) Start(s *simrt.Sched, res *RunResult) {
 	s.Go("app", w.app)
 }
 
+func (w *exitWorld) lastSuspend() int {
+	k := -1
+	for i, st := range w.plan {
+		if st.Kind == 1 {
+			k = i
+		}
+	}
+	return k
+}
+
 func (w *exitWorld) drain() (quit bool) {
 	for {
 		var ev vaxis.Event
@@ -296,7 +314,8 @@ func (w *exitWorld) app() {
 	m := newAppModel(w.rows, w.cols)
 	pers := personalityFor(w.caps)
 	quit := false
-	for _, st := range w.plan {
+plan:
+	for si, st := range w.plan {
 		if quit = w.drain(); quit {
 			break
 		}
@@ -318,6 +337,12 @@ func (w *exitWorld) app() {
 				w.env.shutdown()
 				w.s.Finish()
 				return
+			}
+			if w.closeSuspended && w.exitKind == 0 && si == w.lastSuspend() {
+				// the application exits while suspended: Close without Resume
+				w.leave()
+				w.res.Fault("close-while-suspended")
+				break plan
 			}
 			vx.Resume()
 			w.leave()
